@@ -47,6 +47,12 @@ pub fn main() {
       println!("{} failing observation(s) reproduced", n);
       std::process::exit(if n > 0 { 1 } else { 0 });
     }
+    "fnlist" => {
+      // every function compiler registered by the standard library (the names a call `name(args)` resolves to)
+      let mut v: Vec<&'static str> = inventory::iter::<mech_core::FunctionCompilerDescriptor>.into_iter().map(|d| d.name).collect();
+      v.sort(); v.dedup();
+      for n in v { println!("{}", n); }
+    }
     "probe" => {
       // programs separated by lines containing only "---"; each run in a fresh session, statement blocks separated by ";;" are interpreted one after another
       let mut s = String::new();
